@@ -146,6 +146,9 @@ def export_to_csv(
                 value = tracks.get_node_attr(node_id, feature_name)
                 cols = column_map[feature_name]
                 if isinstance(cols, list):
+                    if value is None:
+                        # no value on this node: leave the columns empty
+                        continue
                     assert isinstance(value, (list, tuple))
                     for col, v in zip(cols, value, strict=True):
                         row[col] = convert_numpy_to_python(v)
